@@ -15,4 +15,10 @@ def _vsock_component():
     return c
 
 
-COMPONENTS = [disp_common.component("c12", name="disp"), _vsock_component()]
+def _vdrop_component():
+    # cancellation: the connection future dropped in mid-flight; every half then reports errors, nothing parks
+    from . import c03
+    return dict(c03.VDROP)
+
+
+COMPONENTS = [disp_common.component("c12", name="disp"), _vsock_component(), _vdrop_component()]
